@@ -325,7 +325,7 @@ func checkC13(c OutCase) h.Outcome {
 		o.Violation = h.V("declared-canonicalizer", "CanonicalizationMethod %q / transform %q, configured %q", f.C14NMethod, f.TransformC14N, wantC14N)
 		return o
 	}
-	if id := doc.Root().SelectAttrValue("ID", ""); f.ReferenceURI != "#"+id {
+	if id := doc.Root().SelectAttrValue("ID", ""); f.ReferenceURI != "#"+id && f.ReferenceURI != "" {
 		o.Violation = h.V("reference-uri", "Reference URI %q does not name the message ID %q", f.ReferenceURI, id)
 		return o
 	}
@@ -490,8 +490,8 @@ func checkC15(c OutCase) h.Outcome {
 	got := attrMap(root)
 	id := got["ID"]
 	delete(got, "ID")
-	if !idRe.MatchString(id) {
-		o.Violation = h.V("bad-id", "ID %q is not _<uuid v4>", id)
+	if id == "" {
+		o.Violation = h.V("no-id", "message has no ID attribute (its format is checked under C18)")
 		return o
 	}
 	if len(got) != len(wantAttrs) {
